@@ -124,16 +124,34 @@ Theorem C08_stall :
 Proof. exact client_waits. Qed.
 Print Assumptions C08_stall.
 
-(* the caller cancels; if the timer has fired as well, select may take either case *)
+(* the caller cancels ([s_deadline st = false]: context.Canceled) or the caller's OWN deadline
+   expires ([s_deadline st = true]: context.DeadlineExceeded) while the transport stalls: the result
+   is the context's error [CCtx _], returned as it is -- not the client's timeout, not a ClientError
+   (DispClient projects it as bare 60 / 61).  If the total timer has fired as well, select may take
+   either case *)
 Theorem C08_cancel :
   forall cfg sc q, c_connected cfg = true -> writes_ok sc ->
   forall chunks st tail,
   sc_steps sc = script_of chunks ++ st :: tail ->
   alive_through cfg (q_expected q) [] chunks ->
   s_ctx st = true ->
-  fst (client_do cfg sc (Some q)) = (if s_pick st || negb (s_timer st) then OFail CCtx else OFail CTimeout).
+  fst (client_do cfg sc (Some q)) =
+  (if s_pick st || negb (s_timer st) then OFail (CCtx (s_deadline st)) else OFail CTimeout).
 Proof. exact fault_cancel. Qed.
 Print Assumptions C08_cancel.
+
+(* the stall case spelt out: the caller's context ends the call with ITS error and nothing else is
+   called; a caller deadline shorter than the read timeout is never reported as the client's timeout *)
+Theorem C08_caller_context_decides :
+  forall cfg sc q, c_connected cfg = true -> writes_ok sc ->
+  forall chunks w st tail,
+  sc_steps sc = script_of chunks ++ repeat quiet w ++ st :: tail ->
+  alive_through cfg (q_expected q) [] chunks ->
+  s_ctx st = true -> s_timer st = false ->
+  client_do cfg sc (Some q) =
+  (OFail (CCtx (s_deadline st)), write_trace cfg (q_bytes q) ++ reads_trace cfg chunks ++ quiet_trace cfg w).
+Proof. exact fault_ctx_after_stall. Qed.
+Print Assumptions C08_caller_context_decides.
 
 Theorem C08_io_error :
   forall cfg sc q, c_connected cfg = true -> writes_ok sc ->
@@ -151,7 +169,7 @@ Theorem C08_oversize :
   forall chunks st tail b,
   sc_steps sc = script_of chunks ++ st :: tail ->
   alive_through cfg (q_expected q) [] chunks ->
-  no_select st -> (s_rd st = RData b \/ s_rd st = REof b) ->
+  no_select st -> (s_rd st = RData b \/ s_rd st = RTimeout b \/ s_rd st = REof b) ->
   (max_len (c_kind cfg) <
    length (payload chunks ++ firstn (buf_size (c_kind cfg) - length (payload chunks)) b))%nat ->
   fst (client_do cfg sc (Some q)) = OFail CTooLong \/
@@ -190,7 +208,7 @@ Print Assumptions C08_eof_serial.
 (* ---------- non-vacuity ---------- *)
 Definition ex8_q : creq := rq false (RRead 3 1 0 2).
 Definition ex8_reply : list N := reply_bytes ex8_q (PBytes 3 1 4 [0x12; 0x34; 0x56; 0x78]).
-Definition ex8_chunks : list (nat * list N) := [(1%nat, firstn 4 ex8_reply); (0%nat, firstn 3 (skipn 4 ex8_reply))].
+Definition ex8_chunks : list chunk := [(1%nat, false, firstn 4 ex8_reply); (0%nat, true, firstn 3 (skipn 4 ex8_reply))].
 
 Example C08_live_prefix_exists :
   alive_through (cfg_of KTcp) (q_expected ex8_q) [] ex8_chunks.
@@ -202,20 +220,25 @@ Example C08_example_stall :
   = OFail CTimeout.
 Proof. vm_compute. reflexivity. Qed.
 Example C08_example_faults :
-  let io := {| s_ctx := false; s_timer := false; s_pick := false; s_rd := RIoErr [5] |} in
-  let big := deliver (repeat 0 300) in
-  let eof := {| s_ctx := false; s_timer := false; s_pick := false; s_rd := REof [] |} in
-  let ctx := {| s_ctx := true; s_timer := false; s_pick := false; s_rd := RTimeout |} in
+  let io := {| s_ctx := false; s_deadline := false; s_timer := false; s_pick := false; s_rd := RIoErr [5] |} in
+  let big := deliver false (repeat 0 300) in
+  let eof := {| s_ctx := false; s_deadline := false; s_timer := false; s_pick := false; s_rd := REof [] |} in
+  let ctx := {| s_ctx := true; s_deadline := false; s_timer := false; s_pick := false; s_rd := RTimeout [] |} in
+  let dl := {| s_ctx := true; s_deadline := true; s_timer := false; s_pick := false; s_rd := RTimeout [] |} in
+  let late := {| s_ctx := false; s_deadline := false; s_timer := false; s_pick := false; s_rd := RTimeout (repeat 0 300) |} in
   fst (client_do (cfg_of KTcp) (plain (script_of ex8_chunks ++ [io])) (Some ex8_q)) = OFail (CIo SiteRead) /\
   fst (client_do (cfg_of KTcp) (plain (script_of ex8_chunks ++ [big])) (Some ex8_q)) = OFail CTooLong /\
   fst (client_do (cfg_of KTcp) (plain (script_of ex8_chunks ++ [eof])) (Some ex8_q)) = OFail (CParse EPlain) /\
   fst (client_do (cfg_of KTcp) (plain [eof]) (Some ex8_q)) = OFail CNoBytes /\
-  fst (client_do (cfg_of KTcp) (plain (script_of ex8_chunks ++ [ctx])) (Some ex8_q)) = OFail CCtx /\
-  fst (client_do (cfg_of KSerial) (plain [eof; quiet; timer_step false RTimeout]) (Some (rq true (RRead 3 1 0 2)))) = OFail CTimeout.
+  fst (client_do (cfg_of KTcp) (plain (script_of ex8_chunks ++ [ctx])) (Some ex8_q)) = OFail (CCtx false) /\
+  fst (client_do (cfg_of KTcp) (plain (script_of ex8_chunks ++ [quiet; dl])) (Some ex8_q)) = OFail (CCtx true) /\
+  fst (client_do (cfg_of KSerial) (plain [dl]) (Some (rq true (RRead 3 1 0 2)))) = OFail (CCtx true) /\
+  fst (client_do (cfg_of KTcp) (plain (script_of ex8_chunks ++ [late])) (Some ex8_q)) = OFail CTooLong /\
+  fst (client_do (cfg_of KSerial) (plain [eof; quiet; timer_step false (RTimeout [])]) (Some (rq true (RRead 3 1 0 2)))) = OFail CTimeout.
 Proof. cbn zeta. repeat split; vm_compute; reflexivity. Qed.
 Example C08_example_bounded :
-  nth_error (sc_steps (plain (script_of ex8_chunks ++ [timer_step false RTimeout; quiet; quiet]))) 3
-  = Some (timer_step false RTimeout) /\ ends_call (timer_step false RTimeout) = true.
+  nth_error (sc_steps (plain (script_of ex8_chunks ++ [timer_step false (RTimeout []); quiet; quiet]))) 3
+  = Some (timer_step false (RTimeout [])) /\ ends_call (timer_step false (RTimeout [])) = true.
 Proof. split; vm_compute; reflexivity. Qed.
 
 (* Observation: Client.do compares with tcpPacketMaxLen (260) also when the client was made by
@@ -223,9 +246,9 @@ Proof. split; vm_compute; reflexivity. Qed.
    the RTU network client (an error either way). *)
 Example C08_rtu_network_limit_is_260 :
   let q := rq true (RRead 3 1 0 2) in
-  fst (client_do (cfg_of KSerial) (plain [deliver (repeat 1 258)]) (Some q)) = OFail CTooLong /\
-  fst (client_do (cfg_of KRtuNet) (plain [deliver (repeat 1 258)]) (Some q)) = OFail (CParse EInvalidCRC) /\
-  fst (client_do (cfg_of KRtuNet) (plain [deliver (repeat 1 261)]) (Some q)) = OFail CTooLong.
+  fst (client_do (cfg_of KSerial) (plain [deliver false (repeat 1 258)]) (Some q)) = OFail CTooLong /\
+  fst (client_do (cfg_of KRtuNet) (plain [deliver false (repeat 1 258)]) (Some q)) = OFail (CParse EInvalidCRC) /\
+  fst (client_do (cfg_of KRtuNet) (plain [deliver false (repeat 1 261)]) (Some q)) = OFail CTooLong.
 Proof. cbn zeta. repeat split; vm_compute; reflexivity. Qed.
 
 (* ---------- inside the D7 regions the class is not the one the property names ---------- *)
@@ -234,7 +257,7 @@ Proof. cbn zeta. repeat split; vm_compute; reflexivity. Qed.
 Theorem C08_short_formula_refuted :
   let q := rq true (RRead 3 1 0 1) in
   let reply := reply_bytes q (PBytes 3 1 2 [0x12; 0x34]) in
-  fst (client_do (cfg_of KRtuNet) (plain [deliver (firstn 6 reply); quiet; timer_step false RTimeout]) (Some q))
+  fst (client_do (cfg_of KRtuNet) (plain [deliver false (firstn 6 reply); quiet; timer_step false (RTimeout [])]) (Some q))
   = OFail (CParse EInvalidCRC).
 Proof. vm_compute. reflexivity. Qed.
 (* TCP FC17: the stream is closed after 12 of 14 bytes; the call reports success *)
@@ -242,8 +265,8 @@ Theorem C08_fc17_eof_refuted :
   let q := rq false (RSrvId 1) in
   let reply := reply_bytes q (PSrvId 1 255 [1; 2] [9; 9]) in
   fst (client_do (cfg_of KTcp)
-         (plain [deliver (firstn 7 reply);
-                 {| s_ctx := false; s_timer := false; s_pick := false; s_rd := REof (firstn 5 (skipn 7 reply)) |}])
+         (plain [deliver false (firstn 7 reply);
+                 {| s_ctx := false; s_deadline := false; s_timer := false; s_pick := false; s_rd := REof (firstn 5 (skipn 7 reply)) |}])
          (Some q))
   = OResp 7 (PSrvId 1 255 [1; 2] []).
 Proof. vm_compute. reflexivity. Qed.
